@@ -63,17 +63,17 @@ func (p procT) Do(ctx context.Context) (interface{}, error) { return p.x.callee(
 
 // executor adapter
 type exec struct {
-	name       string
-	run, stop  func()
-	call       func(x *world, ctx context.Context, id, hash int) (interface{}, error)
-	waitStop   func()
-	ctxAware   bool // the lane skips a call whose context is already done
-	drains     bool // calls accepted before Stop still complete
-	indexOf    func(hash int) int
-	lanes      int
-	qsize      int
-	isClosed   func(err error) bool
-	isFull     func(err error) bool
+	name      string
+	run, stop func()
+	call      func(x *world, ctx context.Context, id, hash int) (interface{}, error)
+	waitStop  func()
+	ctxAware  bool // the lane skips a call whose context is already done
+	drains    bool // calls accepted before Stop still complete
+	indexOf   func(hash int) int
+	lanes     int
+	qsize     int
+	isClosed  func(err error) bool
+	isFull    func(err error) bool
 }
 
 type mkExec struct {
@@ -81,8 +81,8 @@ type mkExec struct {
 	mk   func() *exec
 }
 
-func pipeClosed(e error) bool { return e == pipe.ErrQueueClosed }
-func pipeFull(e error) bool   { return e == pipe.ErrQueueFull }
+func pipeClosed(e error) bool  { return e == pipe.ErrQueueClosed }
+func pipeFull(e error) bool    { return e == pipe.ErrQueueFull }
 func asyncClosed(e error) bool { return e == async.ErrClosed }
 func asyncFull(e error) bool   { return e == async.ErrFull }
 
@@ -109,7 +109,9 @@ func execs() []mkExec {
 				}
 			}, drains: true, lanes: slots, isClosed: pipeClosed, isFull: pipeFull, indexOf: m.IndexOf,
 				call: func(x *world, ctx context.Context, id, hash int) (interface{}, error) {
-					return m.AsyncCall(ctx, mline.NewCallCtx(hash, func(c context.Context, lane int, req interface{}) (interface{}, error) { return x.callee(req.(int), lane) }, id))
+					return m.AsyncCall(ctx, mline.NewCallCtx(hash, func(c context.Context, lane int, req interface{}) (interface{}, error) {
+						return x.callee(req.(int), lane)
+					}, id))
 				}}
 		}})
 	}
@@ -136,7 +138,9 @@ func execs() []mkExec {
 			wg := &vsync.WaitGroup{}
 			pc := async.NewProcChan(async.WithQSize(size), async.WithWaitGroup(wg))
 			return &exec{name: "procchan", qsize: size, run: pc.Run, stop: pc.Stop, waitStop: func() { pc.WaitStop(); wg.Wait() }, ctxAware: true, lanes: 1, isClosed: asyncClosed, isFull: asyncFull, indexOf: func(int) int { return 0 },
-				call: func(x *world, ctx context.Context, id, hash int) (interface{}, error) { return pc.AsyncProc(ctx, procT{x, id}) }}
+				call: func(x *world, ctx context.Context, id, hash int) (interface{}, error) {
+					return pc.AsyncProc(ctx, procT{x, id})
+				}}
 		}})
 	}
 	return o
